@@ -949,15 +949,22 @@ def judge(prop, case, acc):
                         exp_s = first + td(days=1) - td(hours=24 * (bu / capd(resn, first)))
                         if abs(rt.start - exp_s) > MS:
                             viol('C09', 'start-encoding', f'task {rt.id} start {rt.start}, expected {exp_s} ({bu} of {capd(resn, first)} booked up to it on {first})')
+                if is_probe and (nd_days or t['end'] is None):
+                    # (a leaf without remaining work has an end day too: the latest day before its due date with spare capacity)
                     e_ = rt.end
                     dE = day(e_) if e_ != day(e_) else day(e_) - td(days=1)
                     bb = booked_before(resn, dE, rt.id)
                     cpE = capd(resn, dE)
+                    if not nd_days and not cpE > 0:
+                        acc.count('end_encoding_checked_zero_work')
+                        viol('C09', 'end-encoding/zero-work/day-without-capacity', f'task {rt.id} (no remaining work) ends {e_}: the day it belongs to, {dE}, offers no capacity on {resn}')
                     if bb is not None and cpE > 0:
                         exp_e = dE + td(days=1) - td(hours=24 * (bb / cpE))
                         partial = bb > tol(1)
+                        if not nd_days:
+                            acc.count('end_encoding_checked_zero_work')
                         if abs(e_ - exp_e) > MS:
-                            viol('C09', 'end-encoding', f'task {rt.id} end {e_}, expected {exp_e} ({bb} of {cpE} booked on {dE} before it was placed)')
+                            viol('C09', 'end-encoding' + ('' if nd_days else '/zero-work'), f'task {rt.id} end {e_}, expected {exp_e} ({bb} of {cpE} booked on {dE} before it was placed)')
                 if own_s or inh_s or partial:
                     acc.sig(min(len(own_s), 3), min(len(inh_s), 3), partial, min(len(nd_days), 10), i in early)
 
